@@ -80,15 +80,45 @@ def rule_reuse_first(fx, col):
             for i, st in enumerate(ab.stmts(bb)):
                 if st['k'] == 'assign' and any(e['k'] == 'field' and e.get('adt') == 'arc_swap::debt::list::Node' and e.get('name') == 'next' for e in st['dest']['proj']):
                     wr.append((bb, i, st))
-        good = bool(wr) and bool(pubs) and all(ab.pos_dominates((bb, i), ab.term_pos(p.bb)) for bb, i, _ in wr for p in pubs)
+        good = bool(wr) and bool(pubs) and all(any(ab.pos_dominates((bb, i), ab.term_pos(p.bb)) for bb, i, _ in wr) for p in pubs)
         # and next := the expected head of the exchange
         same = bool(wr) and bool(pubs) and all(ab.origins(st['rv'].get('op')) == ab.origins(p.arg(1)) for _, _, st in wr for p in pubs)
-        # a retried exchange expects a *new* head: the link must be re-written in every retry iteration
+        # a retried exchange expects a *new* head: on every path to the exchange the last write of `next` is younger than
+        # the last assignment of the expected-head variable (forward must-analysis: LINKED after `next = head`, lost when
+        # `head` is assigned)
+        def root_local(op):
+            seen = 0
+            while op is not None and op.get('k') in ('copy', 'move') and not op['place']['proj'] and seen < 6:
+                l = op['place']['local']
+                ds = [x for x in ab.assigns().get(l, ()) if not x[4]]
+                if len(ds) == 1 and ds[0][2] == 'stmt' and ds[0][3]['k'] == 'use' and ds[0][3]['op'].get('k') in ('copy', 'move') and not ds[0][3]['op']['place']['proj']:
+                    op = ds[0][3]['op']
+                    seen += 1
+                    continue
+                return l
+            return None
         in_iter = True
         for p in pubs:
-            for h, bl, tl in ab.loops():
-                if p.bb in bl:
-                    in_iter = in_iter and all(bb in bl for bb, _, _ in wr)
+            H = root_local(p.arg(1))
+            if H is None:
+                in_iter = False
+                continue
+            def stmt_fn(st, bb, i, s_):
+                if s_['k'] == 'assign':
+                    if any(e['k'] == 'field' and e.get('adt') == 'arc_swap::debt::list::Node' and e.get('name') == 'next' for e in s_['dest']['proj']):
+                        return root_local(s_['rv'].get('op')) == H
+                    if s_['dest']['local'] == H and not s_['dest']['proj']:
+                        return False
+                return st
+            def term_fn(st, bb, t):
+                if t['k'] == 'call' and t['dest']['local'] == H and not t['dest']['proj']:
+                    st2 = False
+                else:
+                    st2 = st
+                return {x: st2 for x in ab.term_succs(bb, False)}
+            from . import dataflow as DF
+            ins, before = DF.forward(ab, False, stmt_fn, term_fn, lambda a, b_: a and b_, unwind=False)
+            in_iter = in_iter and before.get(p.bb) is True
         col.add('REUSE-FIRST', '%s|next = expected head' % fn, good and same and in_iter,
                 'node.next is set to the head the exchange expects, before the exchange' + ('' if in_iter else
                 ' — but NOT inside the retry loop: after a failed exchange the new expected head is no longer what next points to (nodes added in between are unlinked)'))
